@@ -106,6 +106,7 @@ class Body:
         self.idom = self._dominators()
         self._pdom = None
         self._loops = None
+        self._bev = None
 
     def _reach_from(self, start, removed):
         removed = set(removed)
@@ -121,26 +122,119 @@ class Body:
                     work.append(t)
         return seen
 
-    def reachable_avoiding(self, target, removed_edges, start=0, removed_blocks=()):
-        """Is `target` reachable from `start` when the given edges (a,t) or (a,t,label)
-        and blocks are removed from the normal-flow CFG?"""
+    def _bool_events(self, extra=()):
+        """Per block: updates to boolean locals that only ever hold constants or copies of such locals.
+        Used to prune paths that contradict an earlier `flag = true/false` (e.g. `let c = a || b; if c {..}`)."""
+        cache = getattr(self, "_bev", None) or {}
+        key = frozenset(extra)
+        if key in cache:
+            return cache[key]
+        tracked = set(extra)
+        for b in self.blocks:
+            for st in b.stmts:
+                if st["s"] == "assign" and not st["place"]["p"] and self.locals[st["place"]["l"]]["ty"] == "bool":
+                    rv = st["rvalue"]
+                    if rv["rv"] == "use" and rv["op"].get("k") == "const" and "val" in rv["op"]:
+                        tracked.add(st["place"]["l"])
+        changed = True
+        while changed:
+            changed = False
+            for b in self.blocks:
+                for st in b.stmts:
+                    if st["s"] == "assign" and not st["place"]["p"] and self.locals[st["place"]["l"]]["ty"] == "bool":
+                        rv = st["rvalue"]
+                        if rv["rv"] == "use" and rv["op"].get("k") in ("copy", "move") and not rv["op"]["place"]["p"] \
+                                and rv["op"]["place"]["l"] in tracked and st["place"]["l"] not in tracked:
+                            tracked.add(st["place"]["l"])
+                            changed = True
+        ev = {}
+        for b in self.blocks:
+            lst = []
+            for st in b.stmts:
+                if st["s"] == "assign" and not st["place"]["p"] and st["place"]["l"] in tracked:
+                    rv = st["rvalue"]
+                    l = st["place"]["l"]
+                    if rv["rv"] == "use" and rv["op"].get("k") == "const" and "val" in rv["op"]:
+                        lst.append(("set", l, 1 if rv["op"]["val"] else 0))
+                    elif rv["rv"] == "use" and rv["op"].get("k") in ("copy", "move") and not rv["op"]["place"]["p"]:
+                        lst.append(("copy", l, rv["op"]["place"]["l"]))
+                    else:
+                        lst.append(("unset", l, None))
+            t = b.term
+            if t["t"] == "call" and t.get("dest") and not t["dest"]["p"] and t["dest"]["l"] in tracked:
+                lst.append(("unset", t["dest"]["l"], None))
+            ev[b.idx] = lst
+        cache[key] = (tracked, ev)
+        self._bev = cache
+        return cache[key]
+
+    def reachable_avoiding(self, target, removed_edges, start=0, removed_blocks=(), assume=None):
+        """Is `target` reachable from `start` when the given edges (a,t) or (a,t,label) and blocks are removed from the
+        normal-flow CFG? Paths are pruned by the known value of constant-assigned boolean locals (a switch on a flag
+        that was just set to a constant follows only the matching edge). `assume` fixes the value (0/1) of boolean
+        locals (e.g. parameters) for the query."""
         removed = set(removed_edges)
         rb = set(removed_blocks)
         if start in rb:
             return False
-        seen = {start}
-        work = [start]
+        assume = assume or {}
+        tracked, ev = self._bool_events(tuple(sorted(assume)))
+        if not tracked:
+            seen = {start}
+            work = [start]
+            while work:
+                a = work.pop()
+                if a == target:
+                    return True
+                for (t, lab) in self.succ[a]:
+                    if (a, t, lab) in removed or (a, t) in removed or t in rb:
+                        continue
+                    if t not in seen:
+                        seen.add(t)
+                        work.append(t)
+            return target in seen
+        init = (start, frozenset(assume.items()))
+        seen = {init}
+        work = [init]
+        n = 0
         while work:
-            a = work.pop()
+            a, known = work.pop()
+            n += 1
             if a == target:
                 return True
-            for (t, lab) in self.succ[a]:
+            if n > 200000:
+                return True  # give up pruning: stay conservative (reachable)
+            k = dict(known)
+            for (what, l, v) in ev.get(a, ()):
+                if what == "set":
+                    k[l] = v
+                elif what == "copy":
+                    if v in k:
+                        k[l] = k[v]
+                    else:
+                        k.pop(l, None)
+                else:
+                    k.pop(l, None)
+            succs = self.succ[a]
+            term = self.blocks[a].term
+            if term["t"] == "switch" and term.get("discr_ty") == "bool":
+                pl = term["discr"].get("place")
+                if pl and not pl["p"] and pl["l"] in k:
+                    val = k[pl["l"]]
+                    listed = [x for x, _ in term["targets"]]
+                    if val in listed:
+                        succs = [(t, lab) for (t, lab) in succs if lab == val]
+                    else:
+                        succs = [(t, lab) for (t, lab) in succs if lab == "otherwise"]
+            nk = frozenset(k.items())
+            for (t, lab) in succs:
                 if (a, t, lab) in removed or (a, t) in removed or t in rb:
                     continue
-                if t not in seen:
-                    seen.add(t)
-                    work.append(t)
-        return target in seen
+                stt = (t, nk)
+                if stt not in seen:
+                    seen.add(stt)
+                    work.append(stt)
+        return False
 
     def _dominators(self):
         # Cooper-Harvey-Kennedy on reverse post-order
